@@ -195,6 +195,52 @@ fn cmd_clone(c: &Command) -> Command {
 }
 
 // ------------------------------------------------------------------------------------------------
+// Leg 1b: the three modes are what the configuration loader derives from listener.expect_proxy and
+// cluster.send_proxy (so each machine is reachable from a TOML file, expect-only included)
+// ------------------------------------------------------------------------------------------------
+
+fn config_modes(viol: &mut Vec<Value>) -> Value {
+    use sozu_command_lib::config::Config;
+    use sozu_command_lib::proto::command::ProxyProtocolConfig as P;
+    let mut seen = serde_json::Map::new();
+    for (send, expect, want) in [(false, true, Some(P::ExpectHeader)), (true, false, Some(P::SendHeader)),
+                                 (true, true, Some(P::RelayHeader)), (false, false, None)] {
+        let toml = format!(
+            "command_socket = \"/tmp/c18_cfg.sock\"\nworker_count = 1\n\n[[listeners]]\nprotocol = \"tcp\"\naddress = \"127.0.0.1:4321\"\nexpect_proxy = {expect}\n\n\
+             [clusters.c]\nprotocol = \"tcp\"\nsend_proxy = {send}\nfrontends = [ {{ address = \"127.0.0.1:4321\" }} ]\nbackends = [ {{ address = \"127.0.0.1:4322\" }} ]\n");
+        let r = catch_unwind(AssertUnwindSafe(|| -> Result<Option<i32>, String> {
+            let dir = tempfile::tempdir().map_err(|e| e.to_string())?;
+            let path = dir.path().join("c.toml");
+            std::fs::write(&path, &toml).map_err(|e| e.to_string())?;
+            let cfg = Config::load_from_path(path.to_str().unwrap()).map_err(|e| format!("{e}"))?;
+            let msgs = cfg.generate_config_messages().map_err(|e| format!("{e}"))?;
+            for m in msgs {
+                if let Some(sozu_command_lib::proto::command::request::RequestType::AddCluster(c)) = m.content.request_type {
+                    return Ok(c.proxy_protocol);
+                }
+            }
+            Err("no AddCluster generated".into())
+        }));
+        let got = match r {
+            Ok(Ok(v)) => v,
+            Ok(Err(e)) => {
+                viol.push(json!({"kind":"violation","class":"config:load","detail":{"send_proxy":send,"expect_proxy":expect,"error":e}}));
+                continue;
+            }
+            Err(p) => {
+                viol.push(json!({"kind":"violation","class":"config:panic","detail":{"send_proxy":send,"expect_proxy":expect,"panic":panic_message(p)}}));
+                continue;
+            }
+        };
+        if got != want.map(|x| x as i32) {
+            viol.push(json!({"kind":"violation","class":"config:mode-mapping","detail":{"send_proxy":send,"expect_proxy":expect,"got":got,"want":want.map(|x| x as i32)}}));
+        }
+        seen.insert(format!("send_proxy={send},expect_proxy={expect}"), json!(got));
+    }
+    Value::Object(seen)
+}
+
+// ------------------------------------------------------------------------------------------------
 // Leg 2: machines on a real worker
 // ------------------------------------------------------------------------------------------------
 
@@ -464,6 +510,7 @@ fn main() {
     let t0 = Instant::now();
     let (classes, codec_checks) = codec_leg(&codecs, &mut viol);
     let codec_s = t0.elapsed().as_secs_f64();
+    let cfg_modes = config_modes(&mut viol);
 
     // selection: per (mode, class, pay, sfam) keep the unsplit behaviour, the split right after the header,
     // and a seeded sample of the others; behaviours that end by timeout are rationed (they cost seconds)
@@ -621,7 +668,7 @@ fn main() {
     }
     emit(&json!({"kind":"summary","codec_classes":classes,"codec_checks":codec_checks,"codec_s":codec_s,
                  "behaviours_in":groups.values().map(|v| v.len()).sum::<usize>(),"groups":groups.len(),
-                 "executed":executed,"timeout_class_total":n_slow_total,"unix_closed":unix_closed,
+                 "config_modes":cfg_modes,"executed":executed,"timeout_class_total":n_slow_total,"unix_closed":unix_closed,
                  "separations":seps,"separations_confirmed":seps_ok,"ipv6":v6,"probe":format!("{probe:?}"),
                  "violations":viol.len(),"samples":samples,"setup_error":setup_err,
                  "wall_s":t0.elapsed().as_secs_f64()}));
